@@ -203,7 +203,17 @@ def inject(ctx, g, M, cls, case, rng, rebuild=None):
             st, val = model.apply_real(g, op)
             status = "accepted" if st == "ok" else "raised:" + val
             expect_raise = True
-        after = raw_views(g)
+        try:
+            after = raw_views(g)
+        except Exception as e:  # noqa: BLE001  the views themselves no longer work: the request corrupted the graph
+            ctx.count("faults_injected")
+            ctx.count(f"fault:{kind}")
+            ctx.violate(f"C19/{'accepted' if status == 'accepted' else 'not-atomic'}/{cls}/{kind}/{op[1] if op[0] == 'lookup' else c09.opkey(op)}/views-broken", f"{op} ({status}) left a graph whose views raise {e!r}", dict(case, fault=op, fault_kind=kind))
+            if rebuild is None:
+                return False
+            g, M = rebuild()
+            clean = False
+            continue
         ctx.count("faults_injected")
         ctx.count(f"fault:{kind}")
         ctx.count(f"outcome:{op[1] if op[0] == 'lookup' else op[0]}:{status}")
